@@ -18,7 +18,7 @@ REQUIRED_FEATURES = ["kind_cell", "kind_flat", "kind_ragged", "vk_colvec", "vk_r
                      "selection_has_empty_row", "neg_step_col", "mask_assign", "untouched_cells_exist", "dtype_pass"]
 BOUNDS = {"quick": "LV(3,2) (40 arrays) x reduced bound grid (bounds None,-(k+1),-1,0,1,2,k,k+1; steps None,2,-1,-2) x "
                    "value kinds scalar/np scalar/flat/(k,1) ndarray/(k,1) list/matching RaggedArray/pending-view RaggedArray/"
-                   "3 mismatching RaggedArrays; every boolean ragged mask pattern x scalar/flat",
+                   "3 mismatching RaggedArrays; every boolean ragged mask pattern x scalar/flat; list-of-bools masks; a 6-row array with 4-6-entry row lists x every value kind; float target values",
           "thorough": "LV(3,3) u LV(4,2), full C02 bound grid with steps None,+-1,+-2,+-3"}
 VK_ALL = ["scalar", "npscalar", "flat", "colvec", "colvec_list", "ragged", "ragged_view", "bad_plus", "bad_shift", "bad_rows"]
 
